@@ -21,6 +21,10 @@ def unpack2 {α : Type} : List α → R (α × α)
   | [a, b] => .ok (a, b)
   | _ => .error .value
 
+/-- `BuildAssembly.add_scaffold(result)`: the result now belongs to the assembly being built (the model's `Res.added`) -/
+def markAdded (store : List Res) (sid : Nat) : List Res :=
+  AgpTpf.setAt store sid { (store.getD sid default) with added := true }
+
 /-- FoundFragment objects (the model's `Found`: the fragment and the list of references to the OverlapResults that hold it) live in an arena;
     a reference is an index into it -/
 def getFound (heap : List Found) (r : Nat) : Found := heap.getD r { fragment := default, scaffolds := [] }
